@@ -12,7 +12,13 @@ OBLIGATIONS += [tree(1, 2, 0, 2, ["quick", "thorough"]), tree(1, 3, 0, 2, ["quic
                 tree(1, 4, 0, 3, ["thorough"], 1200)]
 # numbering_structure_only (MODE 2 of the harness) is not registered: CBMC encodes the tree_node_t union through byte operators, the
 # child pointers stop being constants and the recursion of alloc_inode_num_dfs explodes (no verdict in 300 s even for 5 nodes) - see DESIGN.md
-ASSUMPTIONS = ["nodes are typed static objects (mknode's allocation is C13's subject)", "duplicate names are rejected before insertion (fstree_add_generic, EEXIST)"]
+OBLIGATIONS.append(dict(name="hard_link_primary", harness="harness/C11_hardlink.c", sources=["lib/sqfs/src/misc.c"], included_sources=["lib/sqfs/src/io/dir_hl.c"],
+    defines={"strdup": "vp_strdup"}, unwind=4, tiers=["quick", "thorough"], timeout=200, reach=["end"],
+    fp_map={"next": ["next", "src_next"], "read_link": ["read_link"], "key_compare": ["compare_inum"]},
+    functions=["next, detect_hard_link, store_hard_link, read_link, sqfs_hard_link_filter_create (lib/sqfs/src/io/dir_hl.c)"],
+    bound="two directory entries with the same (dev, inode), 1-byte symbolic names, delivered in a symbolic order"))
+
+ASSUMPTIONS = ["rbtree replaced by a 2-slot map with insert/lookup semantics in the hard-link obligation (mem_pool/mmap based allocator outside)", "nodes are typed static objects (mknode's allocation is C13's subject)", "duplicate names are rejected before insertion (fstree_add_generic, EEXIST)"]
 OUTSIDE = ["real readdir / glob on a host directory", "trees deeper than 2 levels or wider than 4 (the functions are structurally recursive over the sorted lists)"]
 META = dict(
     text="Bounded model checking of the real insertion and numbering code: for every set of sibling names and every insertion order (names are unconstrained symbols), the child "
